@@ -251,33 +251,36 @@ def main():
             thorough_extra['sanitizer'] = {'build_failed': e.detail[-300:]}
 
     if cases and st.get('cxx_exe') and cxx_results is not None and not os.environ.get('VERIF_NO_NDEBUG'):
-        # the build configuration as an input: the same sample of cases through a driver compiled the way releases are (-O2 -DNDEBUG:
-        # assertions off, more inlining and reordering, still without contraction or fast-math) must give the observations of the
-        # ordinary build, bit for bit
-        try:
-            t1 = time.time()
-            nd = tie.cxx_build('-O2 -DNDEBUG' + (' -DVERIF_MPI' if use_mpi else ''), 'release-mpi' if use_mpi else 'release')
-            env = dict(os.environ); env['VERIF_TMP'] = os.path.join(BUILD, 'tmp')
-            ref = {r['case'][0]: r for r in cxx_results}
-            nd_cases = [c_ for c_ in cases if c_[0] in ref and not textcmp.has_ub(ref[c_[0]]['model']) and not (isinstance(ref[c_[0]]['cxx'], list) and ref[c_[0]]['cxx'] and ref[c_[0]]['cxx'][0] in ('crash', 'exception'))]
-            if a.tier != 'thorough' and len(nd_cases) > 120:
-                rng4 = random.Random(seed * 15485863 + int(pid[1:])); nd_cases = rng4.sample(nd_cases, 120)
-            lines = [dump([i, t, cmd, args, []]) for (i, t, cmd, args) in nd_cases]
-            outs = tie.run_driver(nd, lines, env=env, chunk=10, timeout=3000, cpu_limit=300)
-            nd_bad = []
-            for c_, o in zip(nd_cases, outs):
-                try: po = parse(o)
-                except Exception: po = None
-                got = po[1] if isinstance(po, list) and len(po) > 1 else o[:200]
-                if got != ref[c_[0]]['cxx']:
-                    nd_bad.append((c_, got))
-            thorough_extra['ndebug_build'] = {'cases': len(nd_cases), 'differing': len(nd_bad), 'wall_s': round(time.time() - t1, 1)}
-            for c_, got in nd_bad[:3]:
-                d = textcmp.compare(got, ref[c_[0]]['cxx'], FMTS.get(c_[1], FMTS['d'])) if isinstance(got, list) else [str(got)[:200]]
-                sanitizer_viol.append({'what': 'compiled as a release (-O2 -DNDEBUG) the library behaves differently on this input (release build vs ordinary build): %s' % (d[:3],),
-                                       'cases': [dump(list(c_[:4]) + [[]])], 'observed': dump(got)[:400] if isinstance(got, list) else str(got)[:400]})
-        except Stage as e:
-            thorough_extra['ndebug_build'] = {'build_failed': e.detail[-300:]}
+        # the build configuration as an input: the same sample of cases through drivers compiled the way users compile -
+        #   "release": g++ -std=c++17 -O2 -DNDEBUG (another language standard, assertions off, more inlining and reordering),
+        #   "clang":   clang++ -std=c++11 -O1 (another compiler: the order of evaluation of function arguments is unspecified and differs)
+        # - both still without contraction or fast-math - must give the observations of the ordinary build, bit for bit
+        ref = {r['case'][0]: r for r in cxx_results}
+        nd_cases = [c_ for c_ in cases if c_[0] in ref and not textcmp.has_ub(ref[c_[0]]['model']) and not (isinstance(ref[c_[0]]['cxx'], list) and ref[c_[0]]['cxx'] and ref[c_[0]]['cxx'][0] in ('crash', 'exception'))]
+        if a.tier != 'thorough' and len(nd_cases) > 120:
+            rng4 = random.Random(seed * 15485863 + int(pid[1:])); nd_cases = rng4.sample(nd_cases, 120)
+        lines = [dump([i, t, cmd, args, []]) for (i, t, cmd, args) in nd_cases]
+        for vname, vflags, vcxx, vwhat in (('release', '-std=c++17 -O2 -DNDEBUG', None, 'compiled as a release (g++ -std=c++17 -O2 -DNDEBUG)'),
+                                           ('clang', '', 'clang++', 'compiled with clang++ (-std=c++11 -O1)')):
+            try:
+                t1 = time.time()
+                nd = tie.cxx_build(vflags + (' -DVERIF_MPI' if use_mpi else ''), vname + ('-mpi' if use_mpi else ''), cxx=vcxx)
+                env = dict(os.environ); env['VERIF_TMP'] = os.path.join(BUILD, 'tmp')
+                outs = tie.run_driver(nd, lines, env=env, chunk=10, timeout=3000, cpu_limit=300)
+                nd_bad = []
+                for c_, o in zip(nd_cases, outs):
+                    try: po = parse(o)
+                    except Exception: po = None
+                    got = po[1] if isinstance(po, list) and len(po) > 1 else o[:200]
+                    if got != ref[c_[0]]['cxx']:
+                        nd_bad.append((c_, got))
+                thorough_extra[vname + '_build'] = {'cases': len(nd_cases), 'differing': len(nd_bad), 'wall_s': round(time.time() - t1, 1)}
+                for c_, got in nd_bad[:3]:
+                    d = textcmp.compare(got, ref[c_[0]]['cxx'], FMTS.get(c_[1], FMTS['d'])) if isinstance(got, list) else [str(got)[:200]]
+                    sanitizer_viol.append({'what': '%s the library behaves differently on this input (that build vs the ordinary g++ -std=c++11 -O1 build): %s' % (vwhat, d[:3]),
+                                           'cases': [dump(list(c_[:4]) + [[]])], 'observed': dump(got)[:400] if isinstance(got, list) else str(got)[:400]})
+            except Stage as e:
+                broken.append({'stage': 'cxx', 'detail': 'the library does not build %s: %s' % (vwhat, e.detail[-600:])})
 
     # C++-only differential / oracle stage (things the model cannot execute: real engines, real MPI, system calls)
     extra = props.extra_checks(pid, rng, a.tier, st, cov) if st.get('cxx_exe') else []
